@@ -205,3 +205,29 @@ class ScriptPeer:
             put(.3 * T, ('err', ConnectionResetError(errno.ECONNRESET, 'Connection reset by peer')))
         else:
             raise AssertionError(f'unknown letter {letter}')
+
+
+class PlanPeer:
+    """Peer whose answer to transmission k is given by plan(k, request_bytes, now) -> [(delay, item), ...]."""
+
+    def __init__(self, plan, conn_plan=None):
+        self.plan = plan
+        self.conn_plan = conn_plan
+        self.sent = []
+        self.connects = []
+        self.kern = None
+        self.bad_requests = []
+
+    def on_connect(self):
+        o = self.conn_plan(len(self.connects)) if self.conn_plan else 'ok'
+        self.connects.append((self.kern.now, o))
+        return o, D0
+
+    def on_send(self, sock, data):
+        k = len(self.sent)
+        now = self.kern.now
+        self.sent.append((now, sock.fd, data, None))
+        for dt, item in self.plan(k, data, now):
+            if isinstance(item, BaseException):
+                raise item
+            self.kern.at(now + dt, sock, item)
